@@ -75,6 +75,44 @@ def run(chk, prog):
         ok = str(a1) == "ps_dims[0]" and k_.is_Integer
     chk.check(ok, "R1", A.loc(rp, {"line": us[0].line if us else rp["line"]}), "the chosen step is (n_records + use_step) mod n_records: -1 selects the last record (%s)" % (us[0].value if us else None),
               "readPhaseSpace:use_step")
+    # the step index must arrive as the signed 64-bit number the user gave: "-1 = last record" relies on (n + use_step) wrapping
+    # modulo 2^64 in hsize_t arithmetic, which a narrower or unsigned hop on the way (option field, getter, factory parameter,
+    # reader parameter) silently turns into (2^32 - 1) mod n
+    S64 = ("long", "long long")
+    hops = []
+    rec = prog.record("vfps::ProgramOptions")
+    fld = [f for f in rec["fields"] if f["name"] == "_startdiststep"]
+    A.require(len(fld) == 1, "ProgramOptions::_startdiststep not found")
+    hops.append(("option field _startdiststep", fld[0]["ctype"], "inc/IO/ProgramOptions.hpp:%d" % fld[0]["line"]))
+    mainf0 = prog.fn("main")
+    mkc = [x for x in A.walk(mainf0["body"]) if x.get("callee") == "vfps::makePSFromHDF5"]
+    A.require(len(mkc) == 1, "main: call of makePSFromHDF5 not found")
+    mkf = prog.fn("vfps::makePSFromHDF5")
+    pn = [p_["name"] for p_ in mkf["params"]]
+    A.require("startdiststep" in pn or any("step" in n_ for n_ in pn), "makePSFromHDF5: step parameter not found")
+    pi = pn.index("startdiststep") if "startdiststep" in pn else [i for i, n_ in enumerate(pn) if "step" in n_][0]
+    arg = mkc[0]["args"][pi]
+    inner = A.strip(arg)
+    hops.append(("value handed over by main (%s)" % A.show(inner), inner.get("ctype"), A.loc(mainf0, mkc[0])))
+    for y in A.walk(arg):
+        if y.get("k") in ("ImplicitCastExpr", "CStyleCastExpr", "CXXStaticCastExpr", "CXXFunctionalCastExpr") and y.get("cast") == "IntegralCast":
+            hops.append(("conversion in main's argument", y.get("ctype"), A.loc(mainf0, y)))
+    hops.append(("makePSFromHDF5 parameter %s" % pn[pi], mkf["params"][pi]["ctype"], mkf.where))
+    rdc = [x for x in A.walk(mkf["body"]) if x.get("callee") == "vfps::HDF5File::readPhaseSpace"]
+    A.require(len(rdc) == 1, "makePSFromHDF5: reader call not found")
+    rpn = [p_["name"] for p_ in rp["params"]]
+    A.require("use_step" in rpn, "readPhaseSpace: parameter use_step not found")
+    ui = rpn.index("use_step")
+    ok_arg = ui < len(rdc[0]["args"]) and (A.declref(rdc[0]["args"][ui]) or {}).get("name") == pn[pi]
+    chk.check(ok_arg, "R1", A.loc(mkf, rdc[0]), "the factory hands its step parameter to the reader's use_step unchanged", "makePSFromHDF5:step-arg")
+    if ui < len(rdc[0]["args"]):
+        for y in A.walk(rdc[0]["args"][ui]):
+            if y.get("cast") == "IntegralCast":
+                hops.append(("conversion in the factory's argument", y.get("ctype"), A.loc(mkf, y)))
+    hops.append(("readPhaseSpace parameter use_step", rp["params"][ui]["ctype"], rp.where))
+    for what, ty, site in hops:
+        chk.check(ty in S64, "R1", site, "step index stays a signed 64-bit integer on its way to the reader: %s has type %s" % (what, ty), "step-chain:%s:%s" % (what.split(" (")[0], ty))
+    chk.floor("R1-step-chain", len(hops), 4)
     rd = [x for x in A.walk(rp["body"]) if x.get("k") == "CXXMemberCallExpr" and (x.get("callee") or "").endswith("DataSet::read")]
     A.require(len(rd) == 1, "readPhaseSpace: dataset read not found")
     enc = A.enclosing(idx, rd[0], {"IfStmt"})
